@@ -13,8 +13,8 @@ Part 2  one mux end as a labelled transition system: connection objects, the id 
         bounded queues, error latch, close — `step : MuxSt → Ev → Option MuxSt`
         (`none` = the operation does not return / the event is not enabled)
 Part 3  the listener wrapper of `pkg/net/conn.go`
-Part 4  two ends joined by a trunk with a fault point (`Sys`), used by the driver to replay
-        scripted exchanges against the real code
+Part 4  (in `NriModel/MuxSys.lean`) two ends joined by a trunk with a fault point, used by
+        the driver to replay scripted exchanges against the real code
 -/
 import NriModel.Basic
 
